@@ -2535,4 +2535,60 @@ theorem run_leaves (cmp : Tree → Tree → Ordering) (g : Granularity) (gt : Gr
     · exact (flatten_map_sort_perm _ _).trans hg
     · exact hg
 
+/-- The groups the arm renders are, flattened, a permutation of what the granularity step returned. -/
+theorem run_perm (cmp : Tree → Tree → Ordering) (g : Granularity) (gt : GroupTactic)
+    (reorder : Bool) (items normalized : List Item) (groups : List (List Item))
+    (hn : mapE (normalizeItem cmp) items = .ok normalized)
+    (h : rewriteUseRun cmp g gt reorder items = .ok groups) :
+    ∃ merged, withGranularity cmp g normalized = .ok merged ∧ groups.flatten.Perm merged := by
+  unfold rewriteUseRun at h
+  rw [hn] at h
+  simp only at h
+  split at h
+  · simp at h
+  · rename_i merged hm
+    simp only [Except.ok.injEq] at h
+    subst h
+    refine ⟨merged, hm, ?_⟩
+    rw [flatten_filter_nonempty]
+    have hg : (match gt with
+        | .stdExternalCrate => groupImports merged
+        | _ => [merged]).flatten.Perm merged := by
+      cases gt
+      · simp
+      · exact (group_is_partition merged).2.1
+      · simp
+    split
+    · exact (flatten_map_sort_perm _ _).trans hg
+    · exact hg
+
+/-- Whole arm, merging granularities: the items with attributes or comments are rendered exactly
+as they were normalised (none merged, none split, none lost), up to their order. -/
+theorem run_protected (cmp : Tree → Tree → Ordering) (g : Granularity) (sp : SharedPrefix)
+    (hg : spOf g = some sp) (gt : GroupTactic) (reorder : Bool)
+    (items normalized : List Item) (groups : List (List Item))
+    (hn : mapE (normalizeItem cmp) items = .ok normalized)
+    (h : rewriteUseRun cmp g gt reorder items = .ok groups) :
+    (groups.flatten.filter isProt).Perm (normalized.filter isProt) := by
+  obtain ⟨merged, hm, hp⟩ := run_perm cmp g gt reorder items normalized groups hn h
+  have hloop : mergeLoop cmp g sp normalized [] = .ok merged := by
+    cases g <;> simp [spOf] at hg <;> subst hg <;> exact hm
+  have := mergeLoop_prot cmp g sp normalized [] merged hloop
+  simp only [List.filter_nil, List.nil_append] at this
+  rw [← this]
+  exact hp.filter _
+
+/-- The arm does not panic on well-formed, non-empty declarations (any configuration). -/
+theorem run_total (cmp : Tree → Tree → Ordering) (g : Granularity) (gt : GroupTactic)
+    (reorder : Bool) (items : List Item)
+    (hwf : ∀ it ∈ items, wfPath true it.tree.path = true ∧ it.tree.path ≠ []) :
+    ∃ groups, rewriteUseRun cmp g gt reorder items = .ok groups := by
+  obtain ⟨normalized, hn⟩ := mapE_ok_of_forall (normalizeItem cmp) items
+    (fun it hit => normalizeItem_ok cmp it (hwf it hit).1 (hwf it hit).2)
+  obtain ⟨merged, hm⟩ := granularity_total cmp g normalized
+  unfold rewriteUseRun
+  rw [hn]
+  simp only [hm]
+  exact ⟨_, rfl⟩
+
 end RF.Lemmas.Imports
